@@ -9,6 +9,10 @@
 (* region discipline, its specified post-state agrees with the observed heap   *)
 (* and no other object's value moved.  A rejected event is marked bad and the  *)
 (* observed heap is adopted, so that one defect does not hide the next.        *)
+(* Who shares memory with whom by the CALLER's doing (al) is kept by the       *)
+(* specification: "alias" events (a shallow struct copy, one section assigned) *)
+(* add pairs, a "copyto" event (Msg.CopyTo into a live message) removes the    *)
+(* target's.                                                                   *)
 EXTENDS Heap, TraceBase
 
 VARIABLES l, S
@@ -22,7 +26,8 @@ Obs(e) == [slots |-> [o \in Obj |-> IF o \in ObsLive(e) THEN e.objs[ObjIdx(e, o)
            bk    |-> [o \in Obj |-> IF o \in ObsLive(e) THEN e.objs[ObjIdx(e, o)].b ELSE 0],
            live  |-> ObsLive(e),
            buf   |-> e.buf,
-           mem   |-> ObsMem(e)]
+           mem   |-> ObsMem(e),
+           al    |-> {}]
 
 \* the recorder's own well-formedness: every region it mentions has a content
 WellFormed(O) == /\ O.live \subseteq Obj
@@ -35,7 +40,15 @@ Agree(P, O) == /\ O.live = P.live /\ O.buf = P.buf
                /\ \A o \in O.live : O.slots[o] = P.slots[o] /\ O.bk[o] = P.bk[o]
                /\ \A r \in DOMAIN O.mem : r \in DOMAIN P.mem /\ P.mem[r] = O.mem[r]
 
-Adopt(O) == [O EXCEPT !.mem = [r \in DOMAIN S.mem \cup DOMAIN O.mem |-> IF r \in DOMAIN O.mem THEN O.mem[r] ELSE S.mem[r]]]
+\* al after the event, as the specification has it (an ill-formed alias / copyto leaves it as it was)
+AliasP(e, O)  == [x |-> e.x, y |-> e.y, ns |-> O.slots[e.y]]
+CopyToP(e, O) == [x |-> e.x, t |-> e.y, ns |-> O.slots[e.y]]
+NextAl(e, O) == CASE e.ev = "reset" -> {}
+                  [] e.ev = "alias"  /\ e.x \in S.live /\ Len(O.slots[e.y]) = Len(S.slots[e.x]) -> AliasPost(S, AliasP(e, O)).al
+                  [] e.ev = "copyto" /\ e.x \in S.live /\ Len(O.slots[e.y]) = Len(S.slots[e.x]) -> CopyToPost(S, CopyToP(e, O)).al
+                  [] OTHER -> S.al
+Adopt(O) == [O EXCEPT !.mem = [r \in DOMAIN S.mem \cup DOMAIN O.mem |-> IF r \in DOMAIN O.mem THEN O.mem[r] ELSE S.mem[r]],
+                      !.al = NextAl(Ev, O)]
 
 Judge(e, O) ==
   CASE e.ev = "reset" -> Disjoint(O)
@@ -48,11 +61,19 @@ Judge(e, O) ==
              p  == [y |-> e.y, ns |-> ns, cs |-> [i \in 1..Len(ns) |-> O.mem[ns[i]]], b |-> O.bk[e.y]] IN
          /\ UnpackShape(S, p) /\ UnpackDisc(S, p)
          /\ Agree(UnpackPost(S, p), O) /\ NonInterf(S, O, {})
+    [] e.ev = "alias" ->
+         LET p == AliasP(e, O) IN
+         /\ AliasShape(S, p) /\ AliasDisc(S, p)
+         /\ Agree(AliasPost(S, p), O) /\ NonInterf(S, O, {})
+    [] e.ev = "copyto" ->
+         LET p == CopyToP(e, O) IN
+         /\ CopyToShape(S, p) /\ CopyToDisc(S, p)
+         /\ Agree(CopyToPost(S, p), O) /\ NonInterf(S, O, {e.y})
     [] e.ev = "mutate" ->
-         /\ e.r \in DOMAIN O.mem /\ e.x \in O.live
-         /\ LET p == [x |-> e.x, r |-> e.r, c |-> O.mem[e.r], b |-> O.bk[e.x]] IN
+         /\ e.r \in DOMAIN O.mem /\ e.x \in O.live /\ e.x \in S.live
+         /\ LET p == [x |-> e.x, r |-> e.r, c |-> O.mem[e.r], b |-> O.bk[e.x], pb |-> [o \in Sharers(S, e.x, e.r) |-> O.bk[o]]] IN
             /\ MutateShape(S, p)
-            /\ Agree(MutatePost(S, p), O) /\ NonInterf(S, O, {e.x})
+            /\ Agree(MutatePost(S, p), O) /\ NonInterf(S, O, Targets(S, "mutate", p))
     [] e.ev = "scribble" ->
          /\ S.buf # 0
          /\ LET p == [c |-> O.mem[S.buf]] IN
@@ -60,16 +81,16 @@ Judge(e, O) ==
             /\ Agree(ScribblePost(S, p), O) /\ NonInterf(S, O, {})
     [] e.ev = "ro" ->
          LET xs == { e.xs[k] : k \in 1..Len(e.xs) }
-             p  == [op |-> e.op, xs |-> xs, nb |-> [o \in xs |-> O.bk[o]]] IN
-         /\ xs \subseteq O.live
+             p  == [op |-> e.op, xs |-> xs, nb |-> [o \in ROArgs(S, xs) |-> O.bk[o]]] IN
+         /\ xs \subseteq O.live /\ xs \subseteq S.live
          /\ ROShape(S, p)
-         /\ Agree(ROPost(S, p), O) /\ OnlyBk(S, Adopt(O), xs) /\ NonInterf(S, O, {})
+         /\ Agree(ROPost(S, p), O) /\ OnlyBk(S, Adopt(O), ROArgs(S, xs)) /\ NonInterf(S, O, {})
     [] e.ev = "newbuf" ->
          LET p == [r |-> O.buf, c |-> O.mem[O.buf]] IN
          /\ NewBufDisc(S, p) /\ Agree(NewBufPost(S, p), O) /\ NonInterf(S, O, {})
     [] OTHER -> FALSE
 
-Empty == [slots |-> [o \in Obj |-> <<>>], bk |-> [o \in Obj |-> 0], live |-> {}, buf |-> 0, mem |-> <<>>]
+Empty == [slots |-> [o \in Obj |-> <<>>], bk |-> [o \in Obj |-> 0], live |-> {}, buf |-> 0, mem |-> <<>>, al |-> {}]
 
 Init == l = 1 /\ S = Empty /\ HWInit
 Next == /\ l <= Len(Trace)
